@@ -6,7 +6,7 @@ RULE = ("random collections of 0-8 instrument definitions over 1-4 exchanges (al
         "(re-index a shuffled order, 30 % with an element repeated, compare with PartialEq), `engine` (real EngineState builder: instrument / asset / connectivity "
         "IndexMaps read by position via instrument_index / asset_index / get_index), two `exec` ops (real ExecutionBuilder with add_mock / add_live for a random "
         "subset of exchanges, 10 % with an unknown or duplicate exchange). 12 % of the cases violate the well-formedness hypotheses on purpose (model vs code only; "
-        "the spec stays silent on the clauses that need them). Thorough: additionally 26 collections of 0-5 definitions with EVERY insertion order (1+1+2+6+24+120 "
+        "the spec stays silent on the clauses that need them). Thorough: additionally 32 collections of 0-5 definitions with EVERY insertion order (1,1,2,6,24,120 "
         "orders per size). Distinct by SHA-1 of the op lines; non-trivial when the implementation's observation blocks differ at least once")
 ASSUMPTIONS = [
     "WFAssets (needed by references_resolve, lookups_inverse_asset, tables_aligned_assets, resolve_by_name, engine_tables_resolve): within one exchange an asset's "
@@ -50,7 +50,7 @@ LEVEL_TEXT = ("Proof. lean/BarterModel/Props/C11.lean proves for EVERY finite li
               "definition (tables_aligned_instruments, tables_aligned_assets, engine_tables_resolve). Unbounded in collection size; the suite's builder tests fix 1-3 instruments "
               "in one order. All full strength, no _partial theorem.")
 LEVEL_NOTE = ("Trusted: Lean kernel; axioms propext/Classical.choice/Quot.sound only; the hand-written model (sort keys for the derived Ord, list semantics of sort/dedup/IndexMap) "
-              "tied to the code by sampled correspondence (300 quick / 10k random + every insertion order of 26 collections of <= 5 definitions thorough) through the real "
+              "tied to the code by sampled correspondence (300 quick / 10k random + every insertion order of 32 collections of <= 5 definitions thorough) through the real "
               "IndexedInstruments, EngineState builder and ExecutionBuilder; harness and driver. Hypotheses WFAssets (asset internal name determines the asset within an exchange) "
               "and WFNames (instrument internal names unique) are needed only for the clauses listed; at the excluded points the code mis-resolves / collapses IndexMap entries "
               "(documented precondition, model and code agree there). Transmitter identity is not observed (only presence per slot).")
